@@ -1,0 +1,22 @@
+//go:build verif
+
+package dagsync
+
+import (
+	"github.com/ipfs/go-cid"
+	"github.com/libp2p/go-libp2p/core/peer"
+)
+
+// VerifYield, when set by a verification harness, is called at the
+// linearization points of the Subscriber (announcement hand-off, lock
+// acquisition and release, latest-sync recording, event distribution,
+// shutdown steps). It lets the harness park goroutines and steer them through
+// chosen interleavings. point names the call site, p the publisher concerned
+// (may be empty) and c a CID the step is about (may be cid.Undef).
+var VerifYield func(point string, p peer.ID, c cid.Cid)
+
+func verifYield(point string, p peer.ID, c cid.Cid) {
+	if f := VerifYield; f != nil {
+		f(point, p, c)
+	}
+}
